@@ -317,7 +317,9 @@ func (env *Env) GenByKey(pkgPath, key string) (*FuncResult, error) {
 					err = fmt.Errorf("contract error in %s: %s", key, se.msg)
 					return
 				}
-				panic(r)
+				// any other failure while generating the conditions of one function: the contract does not attach
+				// to this version of the function (reported as such, never a crash of the whole check)
+				err = fmt.Errorf("contract error in %s: cannot generate verification conditions: %v", key, r)
 			}
 		}()
 		res = env.GenFunc(fn, key, c, sf)
